@@ -364,7 +364,8 @@ fn build_scene(ctx: &Ctx) -> m::Scene {
     let no_cflag = ctx.flag("no-colour-flag");
     let no_int = ctx.flag("no-intensity");
     let no_iflag = ctx.flag("no-intensity-flag");
-    let no_rowcol = ctx.flag("no-row-column");
+    // 0 both, 1 neither, 2 only the row index, 3 only the column index
+    let rowcol = ctx.choose("row-column-presence", 4);
     let ctype = ctx.choose("coord-type", 6);
     let bad = ctx.choose("bad-state", 1 + 4 * 3);
     let cty = match ctype {
@@ -408,8 +409,10 @@ fn build_scene(ctx: &Ctx) -> m::Scene {
             proto.push(rec("isIntensityInvalid", state_ty.clone()));
         }
     }
-    if !no_rowcol {
+    if rowcol == 0 || rowcol == 2 {
         proto.push(rec("rowIndex", Ty::Int { min: 0, max: 1000 }));
+    }
+    if rowcol == 0 || rowcol == 3 {
         proto.push(rec("columnIndex", Ty::Int { min: -5, max: 5 }));
     }
     // 9 points: all 3x3 combinations of the two coordinate states, flags alternate
